@@ -183,9 +183,10 @@ def run(rep, tier):
     with rep.part('wrapper twins'):
         c01w.twins(rep)
     # generated unions: payloads of listed variants are decoded straight from the (wrapped) map access in both member orders
+    from checks import c02, gentypes
     with rep.part('generated union payloads'):
-        from checks import c02, gentypes
         c02.run_union(rep, gentypes.types_program(), 'C05')
+    with rep.part('generated union twins'):
         for fail in c02.battery_union_wrapped():
             rep.violation('C05:native-twin:union', f'native twin: {fail}', {'native': fail})
         rep.replayed += 2
